@@ -1,20 +1,14 @@
 /-
 C17  Gradients are read back by name, in the order asked for.
 -/
-import RateslibModel.Proofs.DualOps
+import RateslibModel.Proofs.Dual2Layout
+import Mathlib.Tactic.FieldSimp
+import Mathlib.Algebra.Field.Basic
+import Mathlib.Tactic.LinearCombination
 namespace Rateslib
 open Dual
 
 variable {α : Type} [CommRing α]
-
-/-- shape invariant of a second-order number -/
-def Dual2.WF (d : Dual2 α) : Prop :=
-  d.vars.Nodup ∧ d.dual.length = d.vars.length ∧ d.dual2.length = d.vars.length ∧
-    ∀ r ∈ d.dual2, r.length = d.vars.length
-
-/-- first and (stored, i.e. half) second derivative by NAME -/
-def Dual2.den (d : Dual2 α) (n : String) : α := lookupOrZero d.vars d.dual n
-def Dual2.den2 (d : Dual2 α) (n m : String) : α := lookup2OrZero d.vars d.dual2 n m
 
 /-- Asking a first-order number for its gradient with respect to distinct names returns the
 derivatives in exactly that order, zero for names it does not depend on — on the fast path (equal
@@ -102,6 +96,60 @@ theorem C17_manifold (d : Dual2 α) (vs : List String) (hv : vs.Nodup) :
       cases hy : d.vars.idxOf? w with
       | none => simp [Dual2.den2, lookup2OrZero, hx, hy]
       | some j => simp [Dual2.den2, lookup2OrZero, hx, hy]
+
+section ProductRule
+variable {K : Type} [Field K]
+
+/-- the manifold element of `d` for the name `v` on the request list `vs` (the form `C17_manifold`
+proves every element has) -/
+def manifoldElem (d : Dual2 K) (vs : List String) (v : String) : Dual2 K :=
+  ⟨Dual2.den d v, vs, vs.map (fun w => Dual2.den2 d v w * 2), zerosM vs.length vs.length⟩
+
+theorem manifoldElem_wf (d : Dual2 K) (vs : List String) (hv : vs.Nodup) (v : String) :
+    (manifoldElem d vs v).WF := by
+  refine ⟨hv, by simp [manifoldElem], by simp [manifoldElem, zerosM], ?_⟩
+  intro r hr
+  simp only [manifoldElem, zerosM, List.mem_replicate] at hr
+  rw [hr.2]; simp [zerosV, manifoldElem]
+
+theorem manifoldElem_den (d : Dual2 K) (vs : List String) (v w : String) (hw : w ∈ vs) :
+    Dual2.den (manifoldElem d vs v) w = Dual2.den2 d v w * 2 :=
+  lookup_map_names vs _ w hw
+
+/-- every element of the manifold gradient is `manifoldElem` (restatement of `C17_manifold`) -/
+theorem C17_manifold_elems (d : Dual2 K) (vs : List String) (hv : vs.Nodup) :
+    d.gradient1Manifold vs = vs.map (manifoldElem d vs) :=
+  C17_manifold d vs hv
+
+/-- THE PRODUCT RULE ON MANIFOLDS: for second-order numbers `a`, `b` of any layouts and any list of
+distinct names, the manifold element of the product `a·b` for a name `v` has the same value and the same
+gradient (with respect to every requested name `w`) as `M_v(a)·b + a·M_v(b)` — i.e. differentiating the
+first derivatives once more by the ordinary product rule reproduces the second derivatives of the
+product.  (Over any field in which 2 ≠ 0; the stored Hessian is the HALF second derivative.) -/
+theorem C17_manifold_product_rule (h2 : (2 : K) ≠ 0) (a b : Dual2 K) (ha : a.WF) (hb : b.WF)
+    (vs : List String) (hv : vs.Nodup) (v w : String) (hw : w ∈ vs) :
+    let lhs := manifoldElem (Dual2.mul false a b) vs v
+    let rhs := Dual2.add false (Dual2.mul false (manifoldElem a vs v) b) (Dual2.mul false a (manifoldElem b vs v))
+    lhs.real = rhs.real ∧ Dual2.den lhs w = Dual2.den rhs w := by
+  intro lhs rhs
+  have wa := manifoldElem_wf a vs hv v
+  have wb := manifoldElem_wf b vs hv v
+  have m1 := Dual2.mul_spec false (manifoldElem a vs v) b wa hb (by simp)
+  have m2 := Dual2.mul_spec false a (manifoldElem b vs v) ha wb (by simp)
+  have s := Dual2.add_spec false _ _ m1.wf m2.wf (by simp)
+  have mab := Dual2.mul_spec false a b ha hb (by simp)
+  have hhalf : (half : K) * 2 = 1 := by
+    unfold half; field_simp
+  constructor
+  · show Dual2.den (Dual2.mul false a b) v = _
+    rw [s.real, m1.real, m2.real, mab.den]
+    simp only [manifoldElem]
+    ring
+  · rw [manifoldElem_den _ vs v w hw, mab.den2, s.den, m1.den, m2.den,
+      manifoldElem_den a vs v w hw, manifoldElem_den b vs v w hw]
+    simp only [manifoldElem]
+    linear_combination (Dual2.den a v * Dual2.den b w + Dual2.den a w * Dual2.den b v) * hhalf
+end ProductRule
 
 /-! Non-vacuity -/
 example : (⟨2, ["x", "y"], [1, 3], [[1, 2], [2, 5]]⟩ : Dual2 ℤ).WF := by
